@@ -34,7 +34,7 @@ MANIFEST = {
 
 UNITS = ["px", "em", "pt", "c", "%"]
 VALUES = ["0", "0.5", "1", "7", "16", "33.333", "100", "640", "1919", "128.01", "20.001", "99.996"]
-VIDEO = [(640, 360), (1920, 1080), (1, 1), (640, None), (None, 360), (None, None)]
+VIDEO = [(640, 360), (1920, 1080), (1, 1), (640, None), (None, 360), (None, None), (480, 480)]
 AXES = ["ox", "oy", "ew", "eh", "pb", "pa", "ps", "pe"]
 HORIZ = {"ox", "ew", "ps", "pe"}
 BASE = {"ox": ("10", "%"), "oy": ("20", "%"), "ew": ("30", "%"), "eh": ("40", "%"), "pb": ("1", "%"), "pa": ("2", "%"), "ps": ("3", "%"), "pe": ("4", "%")}
@@ -214,7 +214,7 @@ def eval_sami(spec, video):
 ABS_LEN = re.compile(r"\d(?:px|em|pt|c)\b")
 
 
-def eval_vtt(spec, video, relativize):
+def eval_vtt(spec, video, relativize, fit=False):
     from pycaption import WebVTTWriter
     from pycaption.exceptions import RelativizationError
 
@@ -226,7 +226,7 @@ def eval_vtt(spec, video, relativize):
     want_err = relativize and any(e == "error" for e in exp.values())
     v = []
     try:
-        doc = shared.obj(WebVTTWriter, relativize=relativize, video_width=vw, video_height=vh, fit_to_screen=False).write(mk_set(mk_layout(spec, True, False)))
+        doc = shared.obj(WebVTTWriter, relativize=relativize, video_width=vw, video_height=vh, fit_to_screen=fit).write(mk_set(mk_layout(spec, True, False)))
     except RelativizationError:
         if not want_err:
             v.append((f"C13/webvtt/unexpected-RelativizationError/{klass}", {"spec": spec, "video": video}))
@@ -241,8 +241,13 @@ def eval_vtt(spec, video, relativize):
         v.append((f"C13/webvtt/non-percentage-length/{klass}", {"settings": settings}))
     if relativize or all_rel:
         got = dict(kv.split(":", 1) for kv in settings.split() if ":" in kv)
+        vals = {a: (exp[a] if relativize else Fraction(spec[a][0])) for a in axes}
+        if fit and vals["ox"] + vals["ew"] > 90:
+            vals["ew"] = 90 - vals["ox"]  # fit-to-screen: the right edge stays inside the safe area
         for key, a in (("position", "ox"), ("line", "oy"), ("size", "ew")):
-            e = exp[a] if relativize else Fraction(spec[a][0])
+            e = vals[a]
+            if fit and a == "ew" and e < 0:
+                continue  # origin outside the safe area: not described
             if e == 0:
                 continue  # a zero offset may be omitted
             if key not in got:
@@ -362,16 +367,21 @@ def run_shard(d):
         a = d["axis"]
         for unit in UNITS:
             for val in VALUES:
-                spec = spec_with(**{a: (val, unit)})
-                for video in VIDEO:
-                    for fit in (False, True):
-                        for level in ("caption", "node", "lang"):
-                            if level != "caption" and val not in ("7", "33.333"):
-                                continue
-                            v, out = eval_dfxp(spec, video, fit, level)
-                            acc.case(("dfxp", a, unit, val, video, fit, level), True, out, {"writer": "DFXPWriter", "axis": a, "value": val + unit, "video": video, "fit_to_screen": fit, "level": level})
-                            for sig, det in v:
-                                acc.violation(sig, {"k": "dfxp", "spec": spec, "video": video, "fit": fit, "level": level}, det)
+                specs_ = [spec_with(**{a: (val, unit)})]
+                if a == "ox":
+                    specs_.append(spec_with(ox=(val, unit), oy=(val, unit)))  # the same length on both axes
+                if a == "ew":
+                    specs_.append(spec_with(ew=(val, unit), eh=(val, unit)))
+                for si, spec in enumerate(specs_):
+                    for video in VIDEO:
+                        for fit in (False, True):
+                            for level in ("caption", "node", "lang"):
+                                if level != "caption" and val not in ("7", "33.333"):
+                                    continue
+                                v, out = eval_dfxp(spec, video, fit, level)
+                                acc.case(("dfxp", a, si, unit, val, video, fit, level), True, out, {"writer": "DFXPWriter", "axis": a, "value": val + unit, "both_axes": bool(si), "video": video, "fit_to_screen": fit, "level": level})
+                                for sig, det in v:
+                                    acc.violation(sig, {"k": "dfxp", "spec": spec, "video": video, "fit": fit, "level": level}, det)
     elif k == "dfxp2":
         n = 0
         for a, b in itertools.combinations(AXES, 2):
@@ -408,10 +418,19 @@ def run_shard(d):
                     spec = spec_with(**{a: (val, unit)})
                     for video in VIDEO:
                         for rel in (True, False):
-                            v, out = eval_vtt(spec, video, rel)
-                            acc.case(("vtt", a, unit, val, video, rel), True, out, {"writer": "WebVTTWriter", "axis": a, "value": val + unit, "video": video, "relativize": rel})
-                            for sig, det in v:
-                                acc.violation(sig, {"k": "vtt", "spec": spec, "video": video, "rel": rel}, det)
+                            for fit in (False, True):
+                                v, out = eval_vtt(spec, video, rel, fit)
+                                acc.case(("vtt", a, unit, val, video, rel, fit), True, out, {"writer": "WebVTTWriter", "axis": a, "value": val + unit, "video": video, "relativize": rel, "fit_to_screen": fit})
+                                for sig, det in v:
+                                    acc.violation(sig + ("/fit" if fit else ""), {"k": "vtt", "spec": spec, "video": video, "rel": rel, "fit": fit}, det)
+        # percentage layouts that overflow, written with relativize on / off and fit on: the edge must be clamped
+        for ox, ew in (("35", "80"), ("50", "40"), ("50", "41"), ("10", "80.01")):
+            spec = spec_with(ox=(ox, "%"), ew=(ew, "%"))
+            for rel in (True, False):
+                v, out = eval_vtt(spec, (640, 360), rel, True)
+                acc.case(("vtt-fit", ox, ew, rel), True, out, None)
+                for sig, det in v:
+                    acc.violation(sig + "/fit", {"k": "vtt", "spec": spec, "video": (640, 360), "rel": rel, "fit": True}, det)
     else:
         xs = [str(Fraction(i, 2)) for i in range(170, 182)]
         ys = [str(Fraction(i, 2)) for i in range(180, 192)]
@@ -443,7 +462,9 @@ def replay(case):
         elif k == "sami":
             v, _ = eval_sami(spec, video)
         else:
-            v, _ = eval_vtt(spec, video, case["rel"])
+            v, _ = eval_vtt(spec, video, case["rel"], case.get("fit", False))
+            if case.get("fit"):
+                v = [(s_ + "/fit", d_) for s_, d_ in v]
     else:
         v, _ = eval_fit(case["x"], case["y"], case["wrel"], case["hrel"], case["level"])
     return [{"sig": s, "detail": d} for s, d in v]
